@@ -22,6 +22,21 @@ def _self_calls(A, f, name):
             and isinstance(n.func.value, ast.Name) and n.func.value.id == 'self']
 
 
+def check_strict_text_io(A, R, rid, classes):
+    """Text files of the given classes are opened without an `errors=` policy other than strict: a byte sequence that is not valid in
+    the encoding (a corrupted file) must raise - and so be treated as unreadable - instead of being decoded with substitutions."""
+    n = 0
+    for ci_ in classes:
+        for m_ in ci_.methods.values():
+            for c_ in A.typer.own_nodes(m_):
+                if isinstance(c_, ast.Call) and (src(c_.func) == 'open' or (isinstance(c_.func, ast.Attribute) and c_.func.attr in ('open', 'read_text', 'write_text'))):
+                    n += 1
+                    lax = [kw for kw in c_.keywords if kw.arg == 'errors' and not (isinstance(kw.value, ast.Constant) and kw.value.value in ('strict', None))]
+                    R.check(not lax, rid, f'{ci_.short}.{m_.name}: `{src(c_)[:50]}`', key_of('lax-decoding', ci_.short, m_.name, bool(lax)), 'strict decoding / encoding',
+                            f'`{src(c_)[:70]}` decodes invalid bytes with substitutions: a cache file whose bytes were damaged is returned as a (different) value instead of being recomputed', where=where(m_, c_))
+    return n
+
+
 def check_numpy_entries(A, R, rid):
     """np.load must accept what np.save writes, and return a copy (shared with C15)."""
     # numpy entries: what np.save can write, np.load must be able to read back - and as a copy, not as a view of the file
@@ -283,6 +298,9 @@ def run(A, R: Report, thorough: bool):
     text = src(isc.node)
     R.check('get_ident()' in text and 'name' in text and 'InMemoryCache()' in text, 'R14.4', 'InMemoryCache.subcache', key_of('mem-subcache'), 'separate object per name and thread',
             'in-memory sub-caches are not separate per name and thread', where=where(isc))
+
+    R.rule('R14.7', 'cache files are read and written with strict text decoding / encoding', floor=2)
+    check_strict_text_io(A, R, 'R14.7', [c_ for c_ in A.prog.classes.values() if c_.is_subclass_of(A.cls('FileCache'))])
 
 
 def _handler_body(cfg, h):
